@@ -1,4 +1,5 @@
 import PRV.Proofs.C07
+import PRV.Gen.C13
 import PRV.Proofs.C07Slow
 import PRV.Gen.C07
 /-
@@ -530,6 +531,12 @@ example : (run (init "p").1 [.add "c0" "d0" 1000 50, .add "c0" "d0" 1000 50, .ad
     [[.setDest "d0" true], [], [], [.onEnd 0 1000 .done, .setDest "d1" true],
      [.onSubmit 2 5, .onEnd 2 0 .done, .setDest "p" false]] := by
   decide +kernel
+
+
+/-- a miner whose session ends is marked as disconnecting *first*, whether or not it holds tasks: the allocator's eligibility
+test reads that flag, and a task handed to a miner between the end of its session and its removal from the list would never
+be served, ended or signalled -/
+theorem source_disconnect_marks_first : (PRV.Gen.C13.onDisconnectCalls.head? = some "isDisconnecting.Store") := by decide
 
 end PRV.Props.C07
 
